@@ -461,6 +461,8 @@ pub struct Sim {
     /// set when something made the run unusable (harness-side problem)
     pub broken: Option<String>,
     pub in_restore: bool,
+    /// (journal length, live job ids, live worker ids) of every prune request
+    pub prune_points: Vec<(usize, Vec<u32>, Vec<u32>)>,
     pub restore_error: Option<String>,
     pub restored_uid: Option<String>,
     pub restored_submits: Vec<RestoredTask>,
@@ -572,6 +574,7 @@ impl Sim {
             n_restarts: 0,
             broken: None,
             in_restore: false,
+            prune_points: Vec::new(),
             restore_error: None,
             restored_uid: None,
             restored_submits: Vec::new(),
@@ -643,9 +646,15 @@ impl Sim {
                     callback,
                     live_jobs,
                     live_workers,
-                } => self
-                    .pending_prunes
-                    .push_back((callback, live_jobs, live_workers)),
+                } => {
+                    let mut lj: Vec<u32> = live_jobs.iter().map(|j| j.as_num()).collect();
+                    lj.sort_unstable();
+                    let mut lw: Vec<u32> = live_workers.iter().map(|w| w.as_num()).collect();
+                    lw.sort_unstable();
+                    self.prune_points.push((self.journal.len(), lj, lw));
+                    self.pending_prunes
+                        .push_back((callback, live_jobs, live_workers))
+                }
                 EventStreamMessage::ReplayJournal(tx) => {
                     for e in &self.journal {
                         let _ = tx.send(e.clone());
